@@ -311,6 +311,15 @@ func opHD(h *HState, a Event) Event {
 				}
 			}
 			z["bufzero"], z["nonzero"] = nz == 0, nz
+			// the erased key is used again: it must go on reporting itself as zeroed
+			after := map[string]interface{}{"str": []int{}, "prverr": ""}
+			guard(func() {
+				k.SetNet(nets[gInt(a, "src")%len(nets)])
+				after["str"] = str(k.String())
+				_, err := k.ECPrivKey()
+				after["prverr"] = hdErr(err)
+			})
+			z["after"] = after
 			e["z"] = z
 			// every id that is the same Go object is zeroed too (Neuter of a public key returns itself)
 			for id, kk := range pl.keys {
